@@ -175,13 +175,26 @@ def run(pid, tier, seed):
                         conn.close()
                     for rew in ("default", "norewrite"):
                         for hs in ((0, 1) if quick else (0, 1, 2, 3, 7, 11, 42, 123)):
-                            jobs.append((pname, k, rew, vi, hs, db))
+                            jobs.append((pname, k, rew, vi, hs, db, None))
+                # the same traces recorded many times over (hot rows first, last, interleaved), queried with `--limit` = the
+                # number of DISTINCT traces: duplicates do not count against the limit, so the stub is the same
+                from monkeytype.encoding import CallTraceRow
+                distinct = len({(r.module, r.qualname, r.arg_types, r.return_type, r.yield_type) for r in map(CallTraceRow.from_trace, traces)})
+                for vi, order in ((100, [traces[0]] * 7 + traces[1:]), (101, traces[1:] + [traces[0]] * 7),
+                                  (102, [t for t in traces for _ in range(3)]), (103, traces * 3)):
+                    db = os.path.join(pd.dir, "c14_%s_%d_%d.sqlite3" % (pname, k, vi))
+                    st = SQLiteStore.make_store(db)
+                    for t in order:
+                        st.add([t])
+                    for rew in ("default", "norewrite"):
+                        jobs.append((pname, k, rew, vi, 0, db, distinct))
         env0 = dict(os.environ, PYTHONPATH=framework.REPO + os.pathsep + pd.dir)
 
         def run_job(job):
-            pname, k, rew, vi, hs, db = job
+            pname, k, rew, vi, hs, db, limit = job
             env = dict(env0, C14_DB=db, C14_K=str(k), PYTHONHASHSEED=str(hs))
-            argv = [sys.executable, "-m", "monkeytype", "-c", cfgname + ":CONFIG"] + (["--disable-type-rewriting"] if rew == "norewrite" else []) + ["stub", modname]
+            argv = ([sys.executable, "-m", "monkeytype", "-c", cfgname + ":CONFIG"] + (["--disable-type-rewriting"] if rew == "norewrite" else []) +
+                    (["--limit", str(limit)] if limit is not None else []) + ["stub", modname])
             p = subprocess.run(argv, env=env, capture_output=True, text=True, timeout=120, cwd=pd.dir)
             return job, p.returncode, p.stdout, p.stderr
         with concurrent.futures.ThreadPoolExecutor(max_workers=12) as ex:
@@ -189,8 +202,8 @@ def run(pid, tier, seed):
         groups = {}
         for job, rc, out, err in results:
             chk.evaluations += 1
-            pname, k, rew, vi, hs, db = job
-            case = {"pool": pname, "k": k, "rewriter": rew, "variant": vi, "hashseed": hs}
+            pname, k, rew, vi, hs, db, limit = job
+            case = {"pool": pname, "k": k, "rewriter": rew, "variant": vi, "hashseed": hs, "limit": limit}
             if rc != 0:
                 chk.fail("stub-error", dict(case, stderr=err[-400:]))
                 continue
@@ -213,6 +226,7 @@ def run(pid, tier, seed):
                          finding=finding)
             if len(chk.samples) < 2 and pname == "typed_dicts" and k == 3:
                 chk.sample({"pool": pname, "k": k, "rewriter": rew, "runs": len(runs), "stub": ref_out[:500]})
+        module_render_correspondence(chk, drv, quick)
         # the known-finding predicates hold of their pools in the model (so the attribution above is not blind)
         g = drv.ask(("tdNames", Q("a"), ("td", ((Q("p"), ("cls", "11")),), ())))
         g2 = drv.ask(("tdNames", Q("a"), ("td", ((Q("z"), ("cls", "13")),), ())))
@@ -222,6 +236,54 @@ def run(pid, tier, seed):
         pd.close()
         drv.close()
     return chk.finish(proof, None)
+
+
+def module_render_correspondence(chk, drv, quick):
+    """K corr.C14.moduleRender: `ModuleStub.render` against the model's `renderModule` (block order and joining), on module stubs
+    whose generated TypedDict classes (same-named ones included), functions and classes are handed over in shuffled order;
+    and, on the implementation, every shuffle of one module stub must render the same text."""
+    import inspect
+    from monkeytype.stubs import AttributeStub, ClassStub, FunctionKind, FunctionStub, ImportBlockStub, ModuleStub
+    rng = chk.rng
+    names_td = ["ATypedDict__RENAME_ME__", "ATypedDict__RENAME_ME__NonTotal", "BTypedDict__RENAME_ME__", "A2TypedDict__RENAME_ME__", "aTypedDict__RENAME_ME__",
+                "ÄTypedDict__RENAME_ME__", "A_TypedDict__RENAME_ME__"]
+    fields = ["p", "z", "q", "P", "é", "a1", "a_"]
+    tys = [int, str, float, bytes]
+    reqs, meta = [], []
+    for it in range(40 if quick else 1500):
+        tds = []
+        for _ in range(rng.randrange(0, 6)):
+            n = rng.choice(names_td[:3] if rng.random() < 0.6 else names_td)       # collisions are frequent
+            attrs = [AttributeStub(f, rng.choice(tys)) for f in rng.sample(fields, rng.randrange(1, 4))]
+            tds.append(ClassStub(n + "(TypedDict)", attribute_stubs=attrs))
+        fnames = rng.sample(["f", "g", "F", "f2", "f_", "_f", "é", "ff"], rng.randrange(0, 5))
+        funcs = [FunctionStub(n, inspect.Signature([inspect.Parameter("a", inspect.Parameter.POSITIONAL_OR_KEYWORD, annotation=rng.choice(tys))],
+                                                   return_annotation=rng.choice(tys)), FunctionKind.MODULE) for n in fnames]
+        cnames = rng.sample(["K", "k", "K2", "K_", "Base"], rng.randrange(0, 4))
+        classes = [ClassStub(n, function_stubs=[FunctionStub("m", inspect.Signature([inspect.Parameter("self", inspect.Parameter.POSITIONAL_OR_KEYWORD)]),
+                                                             FunctionKind.INSTANCE)]) for n in cnames]
+        imps = ImportBlockStub({"typing": {"List"}}) if rng.random() < 0.5 else None
+        texts = set()
+        first = None
+        for sh in range(4):
+            for l in (tds, funcs, classes):
+                rng.shuffle(l)
+            text = ModuleStub(function_stubs=list(funcs), class_stubs=list(classes), imports_stub=imps, typed_dict_class_stubs=list(tds)).render()
+            texts.add(text)
+            first = first or text
+            chk.evaluations += 1
+        case = {"typed_dict_classes": [(c.name, c.render()) for c in tds], "functions": fnames, "classes": cnames}
+        if len(texts) != 1:
+            chk.fail("render-order-dependent", dict(case, detail="the same stubs handed to ModuleStub in another order render differently",
+                                                    texts=sorted(texts)[:2]))
+        pair = lambda st: (Q(st.name), Q(st.render()))
+        reqs.append(("renderModule", Q(imps.render()) if imps is not None and imps.imports else "none",
+                     tuple(pair(c) for c in tds), tuple(pair(f) for f in funcs), tuple(pair(c) for c in classes)))
+        meta.append((case, text))
+        if len({c.name for c in tds}) < len(tds):
+            chk.nontriv("render|%d" % it)
+    for g, (case, text) in zip(drv.ask_many(reqs), meta):
+        chk.rel("corr.C14.moduleRender", str(g) == text, dict(case, impl=text[:600], model=str(g)[:600]))
 
 
 def replay(path, args):
